@@ -15,6 +15,8 @@ strategy, the channel and the aggregator, which is where the property's rational
  R6 publish-once pairing (= C08.R3, C20.O4 imported): one publication and one advance per round, one handler call per publication; only
     complete_probe turns Awaited into Complete and only for the first genuine response (= C03.R2/R4, imported); what counts as genuine is
     Strategy::validate's 72-cell truth table (= C03.R5 / R5v, imported); every probe of every published round reaches the counters (= C05.R8, imported).
+ R8 TCP answers that do not come through ICMP (recv_tcp_socket, both families): a completed handshake is reported from the socket's peer address, a refused one from
+    the target, a socket error from the address its error queue names; received = the clock reading of the call, quoted destination = target, ports = the probe's.
  R7 configuration plumbing of the channel: ChannelConfig takes every field from the tracer field of the same name and Channel from the ChannelConfig
     field of the same name, unchanged (a TCP handshake is awaited for tcp_connect_timeout, not for the read timeout).
 """
@@ -42,6 +44,27 @@ def run(chk, tier):
     from .plumbing import check_copy
     check_copy(chk, 'R7', prog, r'tracer::inner::TracerInner::make_channel_config$', 'trippy_core::config::ChannelConfig', 'self', exceptions={'source_addr': r'source_addr'})
     check_copy(chk, 'R7', prog, r'net::channel::Channel::connect$', 'trippy_core::net::channel::Channel', 'config')
+
+    # ---- R8: who answered a TCP probe (responses that do not come through ICMP) ----------------------------------------
+    # a completed handshake is answered by the peer of the socket, a refused one by the target, an ICMP error by the address the socket's error queue
+    # names; the quoted destination of all three is the target and the ports are the probe's own (C02.R5); received = the clock reading of this call
+    chk.rule('R8', 'responder address of TCP replies / refusals / errors', floor=6)
+    for fam, V in (('ipv4::Ipv4', 'V4'), ('ipv6::Ipv6', 'V6')):
+        f8 = prog.find(r'net::%s::recv_tcp_socket$' % fam)
+        chk.fn_seen(f8['path'])
+        e8 = Engine(prog, inline_depth=0)
+        st8 = St()
+        vals8 = {vshow(o.value) for o in e8.run(f8, [e8.sym_ref(st8, 'self'), e8.sym_ref(st8, 'tcp_socket'), ('sym', 'src_port'), ('sym', 'dest_port')], st8) if o.kind == 'return'}
+        PR = r'ProtocolResponse::Tcp\(call:TcpProtocolResponse::new\(IpAddr::%s\(self\.dest_addr\), src_port\.0, dest_port\.0, Option::None\)\)' % V
+        want8 = {'TcpReply': r'call:SocketAddr::ip\(field:0\(field:0\(call:Socket::peer_addr\(.*\)\)\)\)', 'TcpRefused': r'IpAddr::%s\(self\.dest_addr\)' % V,
+                 'TimeExceeded': r'field:0\(call:Socket::icmp_error_info\(.*\)\)'}
+        for kind, addr in want8.items():
+            got = [v for v in vals8 if ('Response::%s(' % kind) in v]
+            rx = r'Result::Ok\(Option::Some\(Response::%s\(call:ResponseData::new\(now, %s, %s\).*\)\)\)' % (kind, addr, PR)
+            if got and all(re.fullmatch(rx, v) for v in got):
+                chk.ok('R8', '%s:%s' % (fam, kind), 'received = now, responder = %s, quoted destination = target, ports = the probe\'s' % {'TcpReply': 'peer of the socket', 'TcpRefused': 'target', 'TimeExceeded': 'address from the error queue'}[kind])
+            else:
+                chk.fail('R8', '%s:%s' % (fam, kind), fn_loc(f8), '%s::recv_tcp_socket reports %s as %s' % (fam, kind, [v[:200] for v in got][:1] or 'nothing'), key='R8|%s|%s' % (fam, kind))
 
     # ---- R2 ---------------------------------------------------------------------------------------------
     chk.rule('R2', 'Response → StrategyResponse table (5 kinds)', floor=5)
